@@ -125,22 +125,19 @@ def virtualAngles (ub : UBIn α) (p : Pos α) : Py (VAngles α) := do
   let betain := toRad a1 - pi / two
   let betaout := pi / two - toRad a2
   let n_lab := V3.normalised (M3.mulVec Z ub.n_phi)
-  let sa ← bound (-n_lab.y)
-  let alpha ← pyAsin sa
+  let alpha ← boundAsin (-n_lab.y)
   let naz : Option α := if isSmall (cos alpha) then none else some (atan2 n_lab.x n_lab.z)
   let q_lab := V3.normalised (M3.mulVec (M3.sub (M3.mul NU DELTA) M3.id) ⟨zero, one, zero⟩)
   let tau : Option α ←
     if isSmallTol (V3.norm q_lab) (ofSci 1 true 12) || isSmallTol (V3.norm n_lab) (ofSci 1 true 12) then pure none
     else do
-      let b ← bound (V3.dot q_lab n_lab)
-      let t ← pyAcos b
+      let t ← boundAcos (V3.dot q_lab n_lab)
       pure (some t)
   let beta : Option α ←
     match tau with
     | none => pure none
     | some t => do
-      let sb ← bound (two * sin theta * cos t - sin alpha)
-      let b ← pyAsin sb
+      let b ← boundAsin (two * sin theta * cos t - sin alpha)
       pure (some b)
   let psi : Option α :=
     match tau with
